@@ -173,11 +173,11 @@ public:
 
         QString pattern;
         if (suffix.isEmpty()) {
-            pattern = QStringLiteral("^%1\\.%2\\.(\\d+)(\\.gz)?$")
+            pattern = QStringLiteral("^%1\\.%2\\.(\\d+)(\\.gz)?\\z")
                           .arg(QRegularExpression::escape(baseName),
                                QRegularExpression::escape(dateStr));
         } else {
-            pattern = QStringLiteral("^%1\\.%2\\.(\\d+)\\.%3(\\.gz)?$")
+            pattern = QStringLiteral("^%1\\.%2\\.(\\d+)\\.%3(\\.gz)?\\z")
                           .arg(QRegularExpression::escape(baseName),
                                QRegularExpression::escape(dateStr),
                                QRegularExpression::escape(suffix));
@@ -250,10 +250,10 @@ public:
 
         QString pattern;
         if (suffix.isEmpty()) {
-            pattern = QStringLiteral("^%1\\.(\\d{4}-\\d{2}-\\d{2})\\.(\\d+)(\\.gz)?$")
+            pattern = QStringLiteral("^%1\\.(\\d{4}-\\d{2}-\\d{2})\\.(\\d+)(\\.gz)?\\z")
                           .arg(QRegularExpression::escape(baseName));
         } else {
-            pattern = QStringLiteral("^%1\\.(\\d{4}-\\d{2}-\\d{2})\\.(\\d+)\\.%2(\\.gz)?$")
+            pattern = QStringLiteral("^%1\\.(\\d{4}-\\d{2}-\\d{2})\\.(\\d+)\\.%2(\\.gz)?\\z")
                           .arg(QRegularExpression::escape(baseName),
                                QRegularExpression::escape(suffix));
         }
